@@ -664,6 +664,17 @@ Theorem all_open_notified : forall s, reachable s -> listen s = 2 ->
   forall c, inmap s c = true -> cst s c <> CClosed -> notified s c = true.
 Proof. intros s Hr. apply (N_two s (reachable_Notif s Hr)). Qed.
 
+(* the notifying tick treats every connection of the table on its own: whether connection c gets the message depends
+   on c alone (in the table, not yet closed) — not on the other connections, their number, their order in the table or
+   the outcome of the writes to them (sendCloseMsg's Range goes on after a failed write) *)
+Theorem notifying_tick_per_connection : forall s s', stepW s LPollBegin = Some s' -> listen s = 1 ->
+  listen s' = 2 /\
+  forall c, notified s' c = notified s c || (inmap s c && negb (cstate_eqb (cst s c) CClosed)).
+Proof.
+  intros s s' H Hl. remember LPollBegin as l eqn:El.
+  open_step H; try discriminate El. rewrite Hl. cbn. split; reflexivity.
+Qed.
+
 (* when Shutdown returns drained, every connection ever accepted has been sent the message *)
 Theorem drained_return_notified : forall s s', reachable s -> stepW s LPollReturn = Some s' ->
   earlypoll s' = false -> forall c, In c (known s') -> notified s' c = true.
@@ -1223,6 +1234,11 @@ Theorem c12_close_step_notified : forall W cap early ls s l s' c, run W cap earl
   step W cap early s l = Some s' -> cst s c <> CClosed -> cst s' c = CClosed -> earlypoll s' = false ->
   returned (ph s') = false -> notified s c = true.
 Proof. intros. eapply close_step_notified; eauto using is_reachable. Qed.
+
+Theorem c12_notifying_tick_per_connection : forall W cap early s s', step W cap early s LPollBegin = Some s' ->
+  listen s = 1 -> listen s' = 2 /\
+  forall c, notified s' c = notified s c || (inmap s c && negb (cstate_eqb (cst s c) CClosed)).
+Proof. exact notifying_tick_per_connection. Qed.
 
 Theorem c12_all_open_notified : forall W cap early ls s, run W cap early init ls = Some s -> listen s = 2 ->
   forall c, inmap s c = true -> cst s c <> CClosed -> notified s c = true.
